@@ -8,7 +8,10 @@ RULE = ('serialisation through a recording Serializer that accepts only seq / tu
         '32, 33 mod 64), both signs; the token list must equal the model (little-endian base-2^32 digits, no trailing zero, '
         'announced length == emitted count, BigInt = tuple(i8 sign, seq)); deserialisation through a token-replay Deserializer: '
         'arbitrary u32 lists (trailing zeros, odd/even length, empty), every sign byte -128..=127 x zero / non-zero magnitude, '
-        'size hints none / exact / too small / too large / usize::MAX; plus an in-process round trip.  A cell is (direction, kind, '
+        'size hints none / exact / too small / too large / usize::MAX; sign values in every carrier width (i8..i64, u8..u64, as '
+        'self-describing formats hand them over) incl. values congruent to -1/0/1 mod 256; digits handed over as u64 tokens; '
+        'Deserialize::deserialize_in_place over longer / equal / shorter existing values; Sign on its own; plus an in-process '
+        'round trip.  A cell is (direction, kind, '
         'length, top-half class, sign byte class, hint)')
 ASSUMPTIONS = ['the serde data model calls are observed by harness-owned Serializer/Deserializer implementations']
 
@@ -120,6 +123,60 @@ def workload(tier, seed, scale=1.0):
                 return []
             return Cmd('designs %d' % sb, check, cell=('designs', sb if -2 <= sb <= 2 else 'other'), prop='C17')
         cmds.append(mk())
+    # sign values handed over in wider carrier types (self-describing formats deliver i64 / u64): the sign is the VALUE
+    carriers = {'i8': (-128, 127), 'i16': (-(1 << 15), (1 << 15) - 1), 'i32': (-(1 << 31), (1 << 31) - 1), 'i64': (-(1 << 63), (1 << 63) - 1),
+                'u8': (0, 255), 'u16': (0, 65535), 'u32': (0, (1 << 32) - 1), 'u64': (0, (1 << 64) - 1)}
+    signvals = [-1, 0, 1, 2, -2, 3, 127, 128, -128, -129, 129, 254, 255, 256, 257, 258, -254, -255, -256, -257, 511, 512, 513, 32767, 32768, 65279,
+                65535, 65536, 65537, -65535, -65536, -65537, (1 << 31) - 1, 1 << 31, (1 << 32) - 1, 1 << 32, (1 << 32) + 1, -(1 << 31), -(1 << 32) - 1,
+                -(1 << 32), -(1 << 32) + 1, (1 << 63) - 1, 1 << 63, (1 << 64) - 1, (1 << 64) - 255, (1 << 64) - 256, -(1 << 63), -(1 << 63) + 1,
+                -69889, 0x100000000ff, 0xff00000001]
+    signvals += [rnd.randrange(-(1 << 63), 1 << 64) for _ in range(12)] + [256 * rnd.randrange(1, 1 << 40) + d for d in (-1, 0, 1) for _ in range(3)]
+    for ty, (lo, hi) in carriers.items():
+        for sv in sorted(set(signvals)):
+            if not (lo <= sv <= hi):
+                continue
+            cls = sv if -2 <= sv <= 2 else ('cong%d' % (((sv + 1) % 256) - 1) if (sv % 256) in (0, 1, 255) else 'other')
+            def mk(ty=ty, sv=sv, cls=cls):
+                def check(res):
+                    got = res.val(0)
+                    if got is PANIC:
+                        return [Problem({'C17', 'C14'}, 'Sign deserialize panicked', '')]
+                    if sv in (-1, 0, 1):
+                        if got != sv:
+                            return [Problem('C17', 'Sign deserialize: wrong sign', 'carrier=%s got=%r want=%d' % (ty, got, sv))]
+                    elif not isinstance(got, Err):
+                        return [Problem('C17', 'Sign deserialize accepted an invalid sign value', 'carrier=%s value=%d got=%r' % (ty, sv, got))]
+                    return []
+                return Cmd('designs %s:%d' % (ty, sv), check, cell=('designs', ty, cls), prop='C17')
+            cmds.append(mk())
+            for ws in ([], [5], [0, 7, 0]):
+                m = sum(w << (32 * i) for i, w in enumerate(ws))
+                want = sv * m if sv in (-1, 0, 1) else None
+                cmds.append(Cmd('de I %s:%d %s %s' % (ty, sv, rnd.choice(hints), W(ws)), (lambda res, want=want: chk_de(res.val(0), want, 'I')),
+                                cell=('de-sign', ty, cls, len(ws)), prop='C17'))
+    # the digits handed over as u64 tokens (all within u32 range): same value
+    for nw in (0, 1, 2, 3, 5, 8):
+        for trail in (0, 2):
+            ws = [rnd.getrandbits(32) for _ in range(nw)] + [0] * trail
+            m = sum(w << (32 * i) for i, w in enumerate(ws))
+            wide = 'W' + ','.join('%x' % w for w in ws)
+            cmds.append(Cmd('de U %s %s' % (rnd.choice(hints), wide), (lambda res, m=m: chk_de(res.val(0), m, 'U')), cell=('de-wide', 'U', nw, trail), prop='C17'))
+            cmds.append(Cmd('de I u64:1 %s %s' % (rnd.choice(hints), wide), (lambda res, m=m: chk_de(res.val(0), m, 'I')), cell=('de-wide', 'I', nw, trail), prop='C17'))
+    # Deserialize::deserialize_in_place over an existing value (longer, equal, shorter, zero; both kinds)
+    places = [0, 1, M64, 1 << 64, (1 << 128) - 1, (1 << 192) + 12345, (1 << 320) - 1, rnd.getrandbits(500) | (1 << 499)]
+    incoming = [[], [0], [0, 0, 0], [7], [1, 2], [0xffffffff] * 3, [5, 0, 0, 0, 0], [rnd.getrandbits(32) for _ in range(9)],
+                [rnd.getrandbits(32) | 1 for _ in range(20)], [0, 0, 0, 0, 1]]
+    for pv in places:
+        for ws in incoming:
+            m = sum(w << (32 * i) for i, w in enumerate(ws))
+            pc = (ndig(pv) > ndig(m)) - (ndig(pv) < ndig(m))
+            h = rnd.choice(hints)
+            cmds.append(Cmd('dein U %s %s %s' % (U(pv), h, W(ws)), (lambda res, m=m: chk_de(res.val(0), m, 'U')), cell=('dein', 'U', pc, len(ws), m == 0), prop='C17'))
+            for psign in (1, -1):
+                sb = rnd.choice((-1, 0, 1, 1, -1, 2))
+                want = sb * m if sb in (-1, 0, 1) else None
+                cmds.append(Cmd('dein I %s %d %s %s' % (I(psign * pv), sb, h, W(ws)), (lambda res, want=want: chk_de(res.val(0), want, 'I')),
+                                cell=('dein', 'I', psign if pv else 0, sb, pc, m == 0), prop='C17'))
     # every sign byte x zero / non-zero magnitude
     for sb in range(-128, 128):
         for ws in ([], [0], [0, 0, 0], [1], [0, 0, 1, 0, 0], [rnd.getrandbits(32) | 1, rnd.getrandbits(32)]):
